@@ -158,3 +158,44 @@ package api
 //@   ensures err != nil && TotalClaimsOK(&e.StakeAccumulator, tm, nil) ==> err == ErrInsufficientStake
 //@   ensures TotalClaimsOK(&e.StakeAccumulator, tm, nil) ==> (err == nil) == (quantity.Val(&e.Active.Balance) >= uf("totalClaims", &e.StakeAccumulator, tm))
 //@   note when the claims can be totalled, the only failure is the sentinel ErrInsufficientStake itself (callers compare errors by identity: a wrapped error would be treated as fatal by block processing)
+
+// ---- stake accumulator: the recorded claim set (C17: claims mirror registrations) ----
+
+//@ ghost type QT = *quantity.Quantity
+//@ ghost func HasClaim(sa *StakeAccumulator, c StakeClaim) bool { return inDom(sa.Claims, c) }
+
+//@ func StakeAccumulator.AddClaimUnchecked
+//@   props C17 C10
+//@   requires sa != nil
+//@   ensures forall c StakeClaim :: HasClaim(sa, c) == (c == claim || old(HasClaim(sa, c)))
+//@   ensures forall q QT :: quantity.Val(q) == old(quantity.Val(q))
+//@   note the claim is recorded, every other claim keeps its state (the map is created on first use)
+
+//@ func StakeAccumulator.RemoveClaim
+//@   props C17 C10
+//@   requires sa != nil
+//@   ensures (err == nil) == old(HasClaim(sa, claim))
+//@   ensures err == nil ==> (forall c StakeClaim :: HasClaim(sa, c) == (c != claim && old(HasClaim(sa, c))))
+//@   ensures err != nil ==> (forall c StakeClaim :: HasClaim(sa, c) == old(HasClaim(sa, c)))
+//@   ensures forall q QT :: quantity.Val(q) == old(quantity.Val(q))
+//@   note removing a claim that is not recorded is an error and changes nothing
+
+//@ ghost func EBal(e *EscrowAccount) bool { return quantity.Val(&e.Active.Balance) == old(quantity.Val(&e.Active.Balance)) && quantity.Val(&e.Active.TotalShares) == old(quantity.Val(&e.Active.TotalShares)) && quantity.Val(&e.Debonding.Balance) == old(quantity.Val(&e.Debonding.Balance)) && quantity.Val(&e.Debonding.TotalShares) == old(quantity.Val(&e.Debonding.TotalShares)) }
+
+//@ func EscrowAccount.AddStakeClaim
+//@   props C17 C10
+//@   requires e != nil
+//@   ensures err == nil ==> (forall c StakeClaim :: HasClaim(&e.StakeAccumulator, c) == (c == claim || old(HasClaim(&e.StakeAccumulator, c))))
+//@   ensures err != nil ==> (forall c StakeClaim :: HasClaim(&e.StakeAccumulator, c) == old(HasClaim(&e.StakeAccumulator, c)))
+//@   ensures EBal(e)
+//@   loop 1 invariant totalClaims != nil && fresh(totalClaims) && (forall q QT :: q != totalClaims ==> quantity.Val(q) == old(quantity.Val(q)))
+//@   loop 1 invariant forall c StakeClaim :: HasClaim(&e.StakeAccumulator, c) == old(HasClaim(&e.StakeAccumulator, c))
+//@   note on any error no modification is made to the accumulator; the claim is recorded only after the balance comparison; the pools are not touched
+
+//@ func EscrowAccount.RemoveStakeClaim
+//@   props C17 C10
+//@   requires e != nil
+//@   ensures (err == nil) == old(HasClaim(&e.StakeAccumulator, claim))
+//@   ensures err == nil ==> (forall c StakeClaim :: HasClaim(&e.StakeAccumulator, c) == (c != claim && old(HasClaim(&e.StakeAccumulator, c))))
+//@   ensures err != nil ==> (forall c StakeClaim :: HasClaim(&e.StakeAccumulator, c) == old(HasClaim(&e.StakeAccumulator, c)))
+//@   ensures EBal(e)
